@@ -136,8 +136,8 @@ MUTANTS = {
                      "                field_value = \" \" * (fixed_field_length - field_value_length) + field_value",
                      "fixed writer pads on the left"),
     "c14_write_before_validate": (["C14"], "cutplace/validio.py",
-                                  "        if self.location.line >= self._header:\n            self.validate_row(row_to_write)\n        if self.cid.data_format.format == data.FORMAT_FIXED:\n            actual_row_to_write = self._padded_fixed_row(row_to_write)\n        else:\n            actual_row_to_write = row_to_write\n        self._delegated_writer.write_row(actual_row_to_write)",
-                                  "        if self.cid.data_format.format == data.FORMAT_FIXED:\n            actual_row_to_write = self._padded_fixed_row(row_to_write)\n        else:\n            actual_row_to_write = row_to_write\n        is_data_row = self.location.line >= self._header\n        self._delegated_writer.write_row(actual_row_to_write)\n        if is_data_row:\n            self.validate_row(row_to_write)",
+                                  "        if self.location.line >= self._header:\n            self.validate_row(actual_row_to_write)\n        self._delegated_writer.write_row(actual_row_to_write)",
+                                  "        is_data_row = self.location.line >= self._header\n        self._delegated_writer.write_row(actual_row_to_write)\n        if is_data_row:\n            self.validate_row(actual_row_to_write)",
                                   "writer emits the row before validating it"),
     "c15_sheet_off_by_one": (["C15"], "cutplace/rowio.py",
                              "    table_element = table_elements[sheet - 1]",
